@@ -169,4 +169,19 @@ theorem C02_handout_ready (cfg : Config) (ops : List Op) (r : ReqId) (chk : Chec
   (pollCheckout_ready (run_ready ops (init cfg) (ready_init cfg) (lininv_init cfg) (originInv_init cfg))
     (run_originInv ops (init cfg) (originInv_init cfg)) r chk hco).2 p hg hn
 
+/-- **C02 (what the pool needs from a connection type).** For a connection type whose `is_open()` means
+    "can take a request now" (`lax = false`: hyperdriver's own `HttpConnection`, checked on the real type by
+    the `conn` stream), a connection the pool considers open is neither closed nor busy. (`WhenReady::drop`
+    and `IdleConnections::pop` consult `is_open()` alone.) -/
+theorem C02_open_means_ready (s : State) (c : ConnId) (hl : s.cfg.lax = false) (ho : isOpenC s c = true) :
+    ∃ k, s.conns c = some k ∧ k.isOpen = true ∧ k.busy = false := by
+  unfold isOpenC at ho
+  cases hk : s.conns c with
+  | none => rw [hk] at ho; cases ho
+  | some k =>
+    rw [hk] at ho
+    simp only [hl, Bool.false_or, Bool.and_eq_true, Bool.not_eq_true'] at ho
+    exact ⟨k, rfl, ho.1, ho.2⟩
+
 end Hd.Pool
+
